@@ -4,8 +4,9 @@
 Require Import Cherab.Common.Qx.
 Require Import Cherab.Model.C10_RayTransfer Cherab.Model.C10_Pipeline Cherab.Model.C10_Emitter.
 Require Import Cherab.Proofs.C10_Loop Cherab.Proofs.C10_Count Cherab.Proofs.C10_Chord Cherab.Proofs.C10_Cart
-               Cherab.Proofs.C10_Maps Cherab.Proofs.C10_Pipeline Cherab.Proofs.C10_Cyl Cherab.Proofs.C10_Emitter Cherab.Proofs.C10_Fast.
-From Coq Require Import Qabs.
+               Cherab.Proofs.C10_Maps Cherab.Proofs.C10_Pipeline Cherab.Proofs.C10_Cyl Cherab.Proofs.C10_Emitter Cherab.Proofs.C10_Fast
+               Cherab.Proofs.C10_Sqrt3 Cherab.Proofs.C10_Ring.
+From Coq Require Import Qabs Rdefinitions.
 Open Scope Q_scope.
 
 (* the flush-on-change loop of both integrators equals "every sample adds dt to the source of its
@@ -277,6 +278,61 @@ Theorem C10_integrate_cartesian_cell_error_at_most_one_step :
         - chord_cart (dx, dy, dz) (s1, s2, s3) (d1, d2, d3) len c) <= dt_of len n.
 Proof. exact integrate_cells_cart_error. Qed.
 Print Assumptions C10_integrate_cartesian_cell_error_at_most_one_step.
+
+(* ---- second deepening round: sectors with nphi > 1, rational brackets, pipeline histories ---- *)
+(* the model's sign test for a + b sqrt 3 is the sign of that real number (standard-library reals) *)
+Theorem C10_sign_q3_is_sign_of_real :
+  forall v : q3, (sign_q3 v = 1%Z <-> (0 < val3 v)%R) /\ (sign_q3 v = (-1)%Z <-> (val3 v < 0)%R)
+                 /\ (sign_q3 v = 0%Z <-> val3 v = 0%R).
+Proof. exact sign_q3_spec. Qed.
+Print Assumptions C10_sign_q3_is_sign_of_real.
+
+(* hence the model's own half-plane tests against two sector borders (multiples of 30 / 45 degrees, directions with sqrt 3)
+   cut a convex set out of the parameter line of any straight line *)
+Theorem C10_model_sector_tests_are_convex :
+  forall u1 u2 x0 dx y0 dy, convex (in_wedge u1 u2 x0 dx y0 dy).
+Proof. exact wedge_convex. Qed.
+Print Assumptions C10_model_sector_tests_are_convex.
+
+(* so a cell with nphi > 1 (ring x slab x wedge, every test being the model's own) is met in at most two intervals.
+   Remaining gap to the model's cyl_cell for nphi > 1: that gsector = j exactly on the wedge between borders j and j + 1
+   (the counting of borders in gsector and the half-plane bookkeeping of angle_ge), and periodic images (nphi * dphi < 360)
+   are separate wedges. *)
+Theorem C10_cyl_sector_cell_met_in_at_most_two_intervals :
+  forall (u1 u2 : q3 * q3) (x0 dx y0 dy z0 dz rlo rhi zlo zhi : Q),
+  let S := in_cyl_region x0 dx y0 dy z0 dz rlo rhi zlo zhi (in_wedge u1 u2 x0 dx y0 dy) in
+  forall t1 t2 t3 t4 t5 : Q, t1 < t2 -> t2 < t3 -> t3 < t4 -> t4 < t5 ->
+  S t1 -> ~ S t2 -> S t3 -> ~ S t4 -> S t5 -> False.
+Proof. exact cyl_sector_cell_two_runs. Qed.
+Print Assumptions C10_cyl_sector_cell_met_in_at_most_two_intervals.
+
+(* the two-step bound of the property for EVERY cell of EVERY grid of the executable model (any cell function: Cartesian,
+   cylindrical with any sectors), against any rational brackets of the at most two intervals in which the line meets the
+   cell: every sample strictly inside a bracket is in the cell, every sample of the cell is inside a closed bracket.
+   (The true end points of ring cells are square roots; rational brackets exist arbitrarily close to them - that density
+   step is not formalised.) *)
+Theorem C10_cell_error_two_steps_for_rational_brackets :
+  forall (cellfn : vec -> cell) start stop len stp ms (c : cell) (ivs : list (Q * Q)),
+  0 < len -> (1 <= ms)%Z ->
+  let n := nsamples ms len stp in
+  let dt := dt_of len n in
+  let S := fun k => cell_eqb c (cellfn (point_lam start (vsub stop start) n k)) in
+  chain 0 ivs -> (forall ab, In ab ivs -> snd ab <= len) -> (length ivs <= 2)%nat ->
+  (forall k, (0 <= k < n)%Z -> existsb (in_open (t_of dt k)) ivs = true -> S k = true) ->
+  (forall k, (0 <= k < n)%Z -> S k = true -> existsb (in_closed (t_of dt k)) ivs = true) ->
+  Qabs (dt * inject_Z (countp (cell_eqb c) (integrate_cells cellfn start stop len stp ms)) - total_len ivs) <= 2 * dt.
+Proof. exact cell_two_steps_brackets. Qed.
+Print Assumptions C10_cell_error_two_steps_for_rational_brackets.
+
+(* the k-th matrix of ANY history of observations on one 0D pipeline object, from ANY state before the history, is the mean of
+   the k-th observation's own samples *)
+Theorem C10_pipeline0d_every_history_matrix_is_mean :
+  forall (h : list (pkind * list (list sample))) (st : p0) (i : nat) k tasks j,
+  nth_error h i = Some (k, tasks) ->
+  exists m, nth_error (p0_history st h) i = Some m /\
+            m j == sample_sum k (concat tasks) j / inject_Z (Z.of_nat (length (concat tasks))).
+Proof. exact p0_history_means. Qed.
+Print Assumptions C10_pipeline0d_every_history_matrix_is_mean.
 
 (* non-vacuity: the hypotheses of the Cartesian theorem and of the k-interval theorem are satisfiable *)
 Example C10_nonvacuous :
